@@ -289,9 +289,15 @@ def inspect_decorator(
     decorator_lines = lines[decorator_lineno:decorator_end_lineno]
 
     # We need to dedent the decorator and add a dummy decorate so that we can parse its text as valid source code.
-    decorator_text = textwrap.dedent(
-        "".join(decorator_lines)
-    ) + "def dummy_{}(): pass".format(uuid.uuid4().hex)
+    decorator_text = textwrap.dedent("".join(decorator_lines))
+
+    if decorator_text[:1] in (" ", "\t"):
+        # The indention of the decorator could not be removed since one of the continuation lines within
+        # the parentheses of the decorator call (or within a multi-line string) is indented less than the decorator.
+        # Only the indention of the first line matters for parsing.
+        decorator_text = "".join([decorator_lines[0].lstrip()] + decorator_lines[1:])
+
+    decorator_text += "def dummy_{}(): pass".format(uuid.uuid4().hex)
 
     atok = asttokens.asttokens.ASTTokens(decorator_text, parse=True)
 
